@@ -365,44 +365,27 @@ Proof.
   intros. unfold tbl. rewrite <- (class_of_zero lb) at 1. apply map_nth.
 Qed.
 
-Lemma existsb_zero_in : forall l, existsb (Nat.eqb 0) l = true <-> In 0 l.
-Proof.
-  intros l. rewrite existsb_exists. split.
-  - intros (x & Hx & E). apply Nat.eqb_eq in E. now subst.
-  - intros H. exists 0. split; [exact H|reflexivity].
-Qed.
-
 Theorem bucket_params_ok : forall lens nb bs dyn i2b b2s,
   bucket_params lens nb bs dyn = Ok (i2b, b2s) ->
+  (lens = [] /\ i2b = [] /\ b2s = []) \/
   exists lb, length_bounds lens nb = Ok lb /\ i2b = map (class_of lb) lens /\
-             (dyn = true -> ~ In 0 lb) /\
-             b2s = map (fun b => if dyn then last lb 0 * bs / b else bs) lb.
+             b2s = map (fun b => if dyn then Nat.max (last lb 0 * bs / Nat.max b 1) bs else bs) lb.
 Proof.
   intros lens nb bs dyn i2b b2s H. unfold bucket_params in H.
-  destruct (length_bounds lens nb) as [lb|e] eqn:E; [|discriminate]. exists lb.
-  split; [reflexivity|]. destruct dyn.
-  - destruct (existsb (Nat.eqb 0) lb) eqn:Ez; [discriminate|]. inversion H; subst.
-    split; [reflexivity|]. split; [|reflexivity]. intros _ Hin. apply existsb_zero_in in Hin. congruence.
-  - inversion H; subst. split; [reflexivity|]. split; [discriminate|reflexivity].
+  destruct lens as [|l0 lens']; [inversion H; now left|]. right.
+  destruct (length_bounds (l0 :: lens') nb) as [lb|e] eqn:E; [|discriminate]. exists lb.
+  split; [reflexivity|]. destruct dyn; inversion H; subst; split; reflexivity.
 Qed.
 
-(* exactly when it raises (F8): IndexError iff the data set is empty; ZeroDivisionError iff sizes are
-   dynamic and a bound - the length at the first quantile - is zero *)
-Theorem bucket_params_errors : forall lens nb bs dyn e, 1 <= nb ->
-  (bucket_params lens nb bs dyn = Err e <->
-   (e = IndexError /\ lens = []) \/
-   (e = ZeroDivisionError /\ dyn = true /\ exists lb, length_bounds lens nb = Ok lb /\ In 0 lb)).
+(* the function never raises (for num_buckets >= 1): empty data sets and zero-length utterances
+   included *)
+Theorem bucket_params_total : forall lens nb bs dyn, 1 <= nb ->
+  exists t, bucket_params lens nb bs dyn = Ok t.
 Proof.
-  intros lens nb bs dyn e Hnb. unfold bucket_params. split.
-  - intros H. destruct lens as [|l0 lens'] eqn:El.
-    + rewrite length_bounds_empty in H. inversion H. now left.
-    + destruct (length_bounds_total (l0 :: lens') nb) as (lb & Hlb); [discriminate|exact Hnb|].
-      rewrite Hlb in *. right. destruct dyn; [|discriminate].
-      destruct (existsb (Nat.eqb 0) lb) eqn:Ez; [|discriminate]. inversion H.
-      split; [reflexivity|]. split; [reflexivity|]. exists lb. split; [reflexivity|now apply existsb_zero_in].
-  - intros [[-> ->]|(-> & -> & lb & Hlb & Hz)].
-    + now rewrite length_bounds_empty.
-    + rewrite Hlb. apply existsb_zero_in in Hz. now rewrite Hz.
+  intros lens nb bs dyn Hnb. unfold bucket_params.
+  destruct lens as [|l0 lens']; [eexists; reflexivity|].
+  destruct (length_bounds_total (l0 :: lens') nb) as (lb & Hlb); [discriminate|exact Hnb|].
+  rewrite Hlb. destruct dyn; eexists; reflexivity.
 Qed.
 
 Lemma nth_map_in : forall (f : nat -> nat) l j d, j < length l -> nth j (map f l) d = f (nth j l 0).
@@ -411,32 +394,35 @@ Proof.
   destruct j; [reflexivity|]. cbn. apply IH. cbn in Hj. lia.
 Qed.
 
-(* bucket sizes: batch_size when fixed; when dynamic the greatest x with x * y <= Y * batch_size,
-   at least batch_size *)
+(* bucket sizes: batch_size when fixed; when dynamic the greatest x with x * y <= Y * batch_size
+   (y the bucket's bound, Y the longest length), never below batch_size; for a bucket of
+   zero-length utterances any size would do and the code takes max(Y * batch_size, batch_size) *)
 Theorem bucket_sizes : forall lens nb bs dyn i2b b2s lb j,
   bucket_params lens nb bs dyn = Ok (i2b, b2s) -> length_bounds lens nb = Ok lb -> j < length lb ->
   length b2s = length lb /\ bs <= tbl b2s j /\
   (dyn = false -> tbl b2s j = bs) /\
   (dyn = true -> let y := nth j lb 0 in let Y := last lb 0 in
-                 0 < y /\ tbl b2s j * y <= Y * bs /\ Y * bs < (tbl b2s j + 1) * y).
+                 0 < y -> tbl b2s j * y <= Y * bs /\ Y * bs < (tbl b2s j + 1) * y).
 Proof.
   intros lens nb bs dyn i2b b2s lb j H Hlb Hj.
-  destruct (bucket_params_ok _ _ _ _ _ _ H) as (lb' & Hlb' & _ & Hz & ->).
+  destruct (bucket_params_ok _ _ _ _ _ _ H) as [(-> & _ & _)|(lb' & Hlb' & _ & ->)].
+  { rewrite length_bounds_empty in Hlb. discriminate. }
   assert (lb' = lb) by congruence. subst lb'.
   destruct (length_bounds_ok _ _ _ Hlb) as (_ & Hsorted & _ & _ & _ & _ & _).
   split; [apply map_length|].
-  assert (Hnth : tbl (map (fun b => if dyn then last lb 0 * bs / b else bs) lb) j
-                 = if dyn then last lb 0 * bs / nth j lb 0 else bs).
+  assert (Hnth : tbl (map (fun b => if dyn then Nat.max (last lb 0 * bs / Nat.max b 1) bs else bs) lb) j
+                 = if dyn then Nat.max (last lb 0 * bs / Nat.max (nth j lb 0) 1) bs else bs).
   { unfold tbl. now rewrite nth_map_in. }
   rewrite Hnth. destruct dyn.
-  - assert (Hin : In (nth j lb 0) lb) by now apply nth_In.
-    assert (Hpos : 0 < nth j lb 0).
-    { destruct (nth j lb 0) eqn:E; [|lia]. exfalso. apply (Hz eq_refl). exact Hin. }
+  - split; [lia|]. split; [discriminate|]. intros _. cbv zeta. intros Hpos.
+    assert (Hin : In (nth j lb 0) lb) by now apply nth_In.
     assert (Hle : nth j lb 0 <= last lb 0) by (apply sorted_le_last_max; [now apply sorted_lt_le|exact Hin]).
     set (y := nth j lb 0) in *. set (Y := last lb 0) in *.
-    split; [apply Nat.div_le_lower_bound; nia|]. split; [discriminate|]. intros _. cbv zeta.
+    replace (Nat.max y 1) with y by lia.
+    assert (Hge : bs <= Y * bs / y) by (apply Nat.div_le_lower_bound; nia).
+    replace (Nat.max (Y * bs / y) bs) with (Y * bs / y) by lia.
     pose proof (Nat.mul_div_le (Y * bs) y ltac:(lia)) as H1.
     pose proof (Nat.mul_succ_div_gt (Y * bs) y ltac:(lia)) as H2.
-    set (q := Y * bs / y) in *. split; [exact Hpos|]. split; lia.
+    set (q := Y * bs / y) in *. split; lia.
   - split; [lia|]. split; [reflexivity|discriminate].
 Qed.
